@@ -17,6 +17,8 @@ FAMILIES = {
     # finite but deep: list membership / length
     'mem': [('mem', [V('X'), ('P', [V('X')], ('_',))], 'tru'),
             ('mem', [V('X'), ('P', [('_',)], V('T'))], ('call', 'mem', [V('X'), V('T')]), True)],
+    # finite, deterministic, one answer, arbitrarily deep: needs a limit above the interpreter's default
+    'deep': [('deep', [('A', 'z')], 'tru'), ('deep', [('F', 's', [V('N')])], ('call', 'deep', [V('N')]), True)],
     # answers first, then an infinite branch
     'mixed': [('mixed', [('A', 'a')], 'tru'), ('mixed', [('A', 'b')], 'tru'), ('mixed', [V('X')], ('call', 'mixed2', [V('X')]), True),
               ('mixed2', [V('X')], ('call', 'mixed2', [('F', 'f', [V('X')])]), True)],
@@ -66,11 +68,18 @@ def _case(rep, drv, rnd, i, tier):
                 prog = [c for c in prog if c[0] != 'slot']
                 dyn = [('assert', 'slot', 'z', [[Sym('a'), 'k'], [Sym('v'), 30]])]
         elif fam == 'mem':
-            n = rnd.choice([3, 10, 40, 150, 600])
+            n = rnd.choice([3, 10, 40, 150])
             name, args = 'mem', [[Sym('v'), 0], mk_list(n)]
-            if n == 600:
-                limit = rnd.choice([2500, 4000])       # a limit above the interpreter's own (1000): must be honoured
-            shallow = (n <= 10 and limit >= 200) or n == 600
+            shallow = n <= 10 and limit >= 200
+        elif fam == 'deep':
+            n = rnd.choice([5, 30, 500, 700])
+            t = [Sym('a'), 'z']
+            for _ in range(n):
+                t = [Sym('f'), 's', t]
+            name, args = 'deep', [t]
+            if n >= 500:
+                limit = rnd.choice([3000, 4000])       # a limit above the interpreter's own (1000) must be honoured
+            shallow = n >= 500 or (n <= 30 and limit >= 200)
         else:
             name, args = 'mixed', [[Sym('v'), 0]]
     rep.evaluations += 1
